@@ -209,7 +209,9 @@ namespace fixedmath
     [[ gnu::const, gnu::always_inline ]]
     constexpr fixed_t fixed_additioni(fixed_t lh, fixed_t rh ) noexcept
       {
-      fixed_t result { fix_carrier_t{lh.v + rh.v} };
+      //unsigned addition wraps on overflow, signed overflow is undefined and breaks the sign checks below
+      fixed_t result { fix_carrier_t{ static_cast<fixed_internal>(
+          static_cast<fixed_internal_unsigned>(lh.v) + static_cast<fixed_internal_unsigned>(rh.v) )} };
       if( fixed_unlikely(result >= 0_fix) ) 
         {
         if( fixed_unlikely((lh < 0_fix ) && ( rh < 0_fix)) )
@@ -219,6 +221,9 @@ namespace fixedmath
         {
         if( fixed_unlikely((lh > 0_fix ) && ( rh > 0_fix )) ) 
           return quiet_NaN_result();
+        //sum below lowest() that did not wrap
+        if( fixed_unlikely( result.v == std::numeric_limits<fixed_internal>::min() ) )
+          return -quiet_NaN_result();
         }
       return result;
       }
@@ -301,7 +306,9 @@ namespace fixedmath
     [[ gnu::const, gnu::always_inline ]]
     constexpr fixed_t fixed_substracti(fixed_t lh, fixed_t rh) noexcept
       {
-      fixed_t result { fix_carrier_t{lh.v - rh.v}};
+      //unsigned subtraction wraps on overflow, signed overflow is undefined and breaks the sign checks below
+      fixed_t result { fix_carrier_t{ static_cast<fixed_internal>(
+          static_cast<fixed_internal_unsigned>(lh.v) - static_cast<fixed_internal_unsigned>(rh.v) )} };
 
       if(fixed_unlikely(result >= 0_fix)) 
         {
@@ -312,6 +319,9 @@ namespace fixedmath
         {
         if( fixed_unlikely((lh > 0_fix) && (rh < 0_fix)) )
           return quiet_NaN_result();
+        //difference below lowest() that did not wrap
+        if( fixed_unlikely( result.v == std::numeric_limits<fixed_internal>::min() ) )
+          return -quiet_NaN_result();
         }
 
       return result;
